@@ -1,7 +1,195 @@
+/* wraps tlscommon.c textually: certificates are built in memory from a line of tokens and handed to the
+   REAL verifyconfcert with a block assembled from the same line (C15). The library's own name checks
+   (X509_check_host / X509_check_ip_asc / inet_pton) are recorded so that the model can take them as given. */
 #include "interpose.h"
-#include "tlscommon.c"
 #include "hcommon.h"
+extern void h_transcript_note(const char *s);
+extern char *h_transcript_take(void);
+
+static void note_hex(char *q, const char *s) {
+    if (!*s)
+        strcat(q, "-");
+    for (; *s; s++)
+        sprintf(q + strlen(q), "%02x", (unsigned char)*s);
+}
+static int h_X509_check_host(X509 *x, const char *chk, size_t chklen, unsigned int flags, char **peername) {
+    int r = X509_check_host(x, chk, chklen, flags, peername);
+    char tmp[1200] = " hc:";
+    note_hex(tmp, chk);
+    sprintf(tmp + strlen(tmp), ":%d:%d", (flags & X509_CHECK_FLAG_NEVER_CHECK_SUBJECT) ? 0 : 1, r);
+    h_transcript_note(tmp);
+    return r;
+}
+static int h_X509_check_ip_asc(X509 *x, const char *ipasc, unsigned int flags) {
+    int r = X509_check_ip_asc(x, ipasc, flags);
+    char tmp[1200] = " ipc:";
+    note_hex(tmp, ipasc);
+    sprintf(tmp + strlen(tmp), ":%d", r);
+    h_transcript_note(tmp);
+    return r;
+}
+static int h_inet_pton(int af, const char *src, void *dst) {
+    int r = inet_pton(af, src, dst);
+    char tmp[1200] = " pton:";
+    sprintf(tmp + strlen(tmp), "%d:", af == AF_INET ? 4 : 6);
+    note_hex(tmp, src);
+    sprintf(tmp + strlen(tmp), ":%d", r);
+    h_transcript_note(tmp);
+    return r;
+}
+#define X509_check_host h_X509_check_host
+#define X509_check_ip_asc h_X509_check_ip_asc
+#define inet_pton h_inet_pton
+#include "tlscommon.c"
+#undef X509_check_host
+#undef X509_check_ip_asc
+#undef inet_pton
+
+static char *kv(int argc, char **argv, const char *key) {
+    size_t n = strlen(key);
+    for (int i = 0; i < argc; i++)
+        if (!strncmp(argv[i], key, n) && argv[i][n] == '=')
+            return argv[i] + n + 1;
+    return NULL;
+}
+
+/* san entry: dns:<hex> uri:<hex> ip:<hex> rid:<oidtext> on:<oidtext>:<type>:<hex>   (type: utf8 ia5 octet bool null int seq) */
+static int add_san(GENERAL_NAMES *gens, char *tok) {
+    GENERAL_NAME *gn = GENERAL_NAME_new();
+    int l;
+    uint8_t *b;
+    if (!strncmp(tok, "dns:", 4) || !strncmp(tok, "uri:", 4)) {
+        ASN1_IA5STRING *s = ASN1_IA5STRING_new();
+        b = hx(tok + 4, &l);
+        ASN1_STRING_set(s, b, l);
+        GENERAL_NAME_set0_value(gn, tok[0] == 'd' ? GEN_DNS : GEN_URI, s);
+        (free)(b);
+    } else if (!strncmp(tok, "ip:", 3)) {
+        ASN1_OCTET_STRING *s = ASN1_OCTET_STRING_new();
+        b = hx(tok + 3, &l);
+        ASN1_STRING_set(s, b, l);
+        GENERAL_NAME_set0_value(gn, GEN_IPADD, s);
+        (free)(b);
+    } else if (!strncmp(tok, "rid:", 4)) {
+        ASN1_OBJECT *o = OBJ_txt2obj(tok + 4, 1);
+        if (!o)
+            return 0;
+        GENERAL_NAME_set0_value(gn, GEN_RID, o);
+    } else if (!strncmp(tok, "on:", 3)) {
+        char *oid = tok + 3, *ty = strchr(oid, ':'), *val;
+        ASN1_OBJECT *o;
+        ASN1_TYPE *t = ASN1_TYPE_new();
+        if (!ty)
+            return 0;
+        *ty++ = 0;
+        val = strchr(ty, ':');
+        if (!val)
+            return 0;
+        *val++ = 0;
+        o = OBJ_txt2obj(oid, 1);
+        if (!o)
+            return 0;
+        b = hx(val, &l);
+        if (!strcmp(ty, "utf8") || !strcmp(ty, "ia5") || !strcmp(ty, "octet")) {
+            int at = !strcmp(ty, "utf8") ? V_ASN1_UTF8STRING : !strcmp(ty, "ia5") ? V_ASN1_IA5STRING : V_ASN1_OCTET_STRING;
+            ASN1_STRING *s = ASN1_STRING_type_new(at);
+            ASN1_STRING_set(s, b, l);
+            ASN1_TYPE_set(t, at, s);
+        } else if (!strcmp(ty, "bool")) {
+            ASN1_TYPE_set(t, V_ASN1_BOOLEAN, l && b[0] ? (void *)1 : NULL);
+        } else if (!strcmp(ty, "null")) {
+            ASN1_TYPE_set(t, V_ASN1_NULL, NULL);
+        } else if (!strcmp(ty, "int")) {
+            ASN1_INTEGER *n = ASN1_INTEGER_new();
+            ASN1_INTEGER_set(n, l ? b[0] : 0);
+            ASN1_TYPE_set(t, V_ASN1_INTEGER, n);
+        } else {
+            ASN1_STRING *s = ASN1_STRING_type_new(V_ASN1_SEQUENCE);
+            ASN1_STRING_set(s, "\x30\x00", 2);
+            ASN1_TYPE_set(t, V_ASN1_SEQUENCE, s);
+        }
+        (free)(b);
+        GENERAL_NAME_set0_othername(gn, o, t);
+    } else
+        return 0;
+    sk_GENERAL_NAME_push(gens, gn);
+    return 1;
+}
+
+/* vcert namecheck=0|1 cncheck=0|1 servername=<hex|.> connected=<hex host>/<prefixlen>|. hosts=<hex>/<plen>,..|. realm=<hex|.>
+         terms=<hex;hex;..|.> cn=<hex,hex|.> san=<entry,entry,..|.|none> */
 int h_tls_op(const char *op, int argc, char **argv, FILE *out) {
-    (void)op; (void)argc; (void)argv; (void)out;
-    return 0;
+    struct clsrvconf conf;
+    struct hostportres hpc, *hpcp = NULL;
+    X509 *x;
+    X509_NAME *nm;
+    char *v, *tok, *save, *realm = NULL, *tr;
+    int ok, l;
+    uint8_t *b;
+    if (strcmp(op, "vcert"))
+        return 0;
+    memset(&conf, 0, sizeof(conf));
+    conf.name = "blk";
+    conf.certnamecheck = (v = kv(argc, argv, "namecheck")) ? atoi(v) : 1;
+    conf.certcncheck = (v = kv(argc, argv, "cncheck")) ? atoi(v) : 0;
+    if ((v = kv(argc, argv, "servername")) && strcmp(v, "."))
+        conf.servername = hxstr(v);
+    if ((v = kv(argc, argv, "connected")) && strcmp(v, ".")) {
+        char *sl = strchr(v, '/');
+        memset(&hpc, 0, sizeof(hpc));
+        *sl = 0;
+        hpc.host = hxstr(v);
+        hpc.prefixlen = atoi(sl + 1);
+        hpcp = &hpc;
+    }
+    conf.hostports = list_create();
+    if ((v = kv(argc, argv, "hosts")) && strcmp(v, "."))
+        for (tok = strtok_r(v, ",", &save); tok; tok = strtok_r(NULL, ",", &save)) {
+            struct hostportres *hp = (calloc)(1, sizeof(*hp));
+            char *sl = strchr(tok, '/');
+            *sl = 0;
+            hp->host = hxstr(tok);
+            hp->prefixlen = atoi(sl + 1);
+            list_push(conf.hostports, hp);
+        }
+    if ((v = kv(argc, argv, "realm")) && strcmp(v, "."))
+        realm = hxstr(v);
+    if ((v = kv(argc, argv, "terms")) && strcmp(v, "."))
+        for (tok = strtok_r(v, ";", &save); tok; tok = strtok_r(NULL, ";", &save)) {
+            char *t = hxstr(tok);
+            if (!addmatchcertattr(&conf, t)) {
+                fputs("bad-term", out);
+                return 1;
+            }
+            (free)(t);
+        }
+    x = X509_new();
+    X509_set_version(x, 2);
+    nm = X509_get_subject_name(x);
+    X509_NAME_add_entry_by_txt(nm, "O", MBSTRING_ASC, (const unsigned char *)"verif", -1, -1, 0);
+    if ((v = kv(argc, argv, "cn")) && strcmp(v, "."))
+        for (tok = strtok_r(v, ",", &save); tok; tok = strtok_r(NULL, ",", &save)) {
+            b = hx(tok, &l);
+            X509_NAME_add_entry_by_NID(nm, NID_commonName, V_ASN1_UTF8STRING, b, l, -1, 0);
+            (free)(b);
+        }
+    if ((v = kv(argc, argv, "san")) && strcmp(v, "none")) {
+        GENERAL_NAMES *gens = sk_GENERAL_NAME_new_null();
+        if (strcmp(v, "."))
+            for (tok = strtok_r(v, ",", &save); tok; tok = strtok_r(NULL, ",", &save))
+                if (!add_san(gens, tok)) {
+                    fputs("bad-san", out);
+                    return 1;
+                }
+        X509_add1_ext_i2d(x, NID_subject_alt_name, gens, 0, 0);
+        GENERAL_NAMES_free(gens);
+    }
+    tr = h_transcript_take();
+    (free)(tr);
+    ok = verifyconfcert(x, &conf, hpcp, realm);
+    tr = h_transcript_take();
+    fprintf(out, "ok=%d ##%s", ok, tr);
+    (free)(tr);
+    X509_free(x);
+    return 1;
 }
